@@ -66,6 +66,8 @@ func stmtShape(list []ast.Stmt) string {
 			parts = append(parts, p)
 		case *ast.ForStmt:
 			parts = append(parts, "for {"+stmtShape(x.Body.List)+"}")
+		case *ast.RangeStmt:
+			parts = append(parts, "range "+exprStr(x.X)+" {"+stmtShape(x.Body.List)+"}")
 		case *ast.BlockStmt:
 			parts = append(parts, "{"+stmtShape(x.List)+"}")
 		case *ast.DeclStmt:
